@@ -7,13 +7,15 @@
 //verif:replace (*github.com/ipfs/go-datastore/autobatch.Datastore).Put github.com/celestiaorg/celestia-node/share/availability/light.verifDsPut
 //verif:replace (*github.com/ipfs/go-datastore/autobatch.Datastore).Flush github.com/celestiaorg/celestia-node/share/availability/light.verifDsFlush
 //verif:replace (*github.com/ipfs/go-datastore/autobatch.Datastore).Sync github.com/celestiaorg/celestia-node/share/availability/light.verifDsSync
+//verif:replace (*github.com/celestiaorg/celestia-app/v9/pkg/da.DataAvailabilityHeader).String github.com/celestiaorg/celestia-node/share/availability/light.verifDAHString
 //verif:replace encoding/json.Marshal github.com/celestiaorg/celestia-node/share/availability/light.verifMarshal
 //verif:replace encoding/json.Unmarshal github.com/celestiaorg/celestia-node/share/availability/light.verifUnmarshal
 //verif:noop github.com/celestiaorg/celestia-app/v9/pkg/da github.com/ipfs/go-datastore/autobatch
 //verif:init github.com/ipfs/go-datastore github.com/celestiaorg/celestia-node/share/availability/light
 //verif:bound light availability: square of 2x2 cells (thorough: also 4x4), configured sample amount 2 or 5 (thorough: 1,2,3,5; so both "amount" and "whole square" limits are met), sample coordinates drawn as arbitrary symbolic values below the width; two consecutive checks of the same block, the second on a fresh instance after a graceful shutdown (the real Close, then only what the write buffer handed to the underlying store survives); per check the getter returns nothing, or a full-length result in which any subset of positions is non-empty, with or without an error (incl. context.Canceled); the datastore Put may fail
 //verif:assume the getter hands back only verified samples (C06) and keeps its documented contract (result in request order, empty positions for failures, or no result); crypto/rand is replaced by arbitrary values in range (unpredictability/uniformity is a probabilistic statement outside any solver verdict); JSON encoding of the sampling result is the identity; the datastore is one cell behind a write buffer with autobatch's semantics (Put buffers, Get reads through the buffer, Flush commits everything, Sync(prefix) commits only buffered keys equal to or below the prefix)
-//verif:outside uniform/unpredictable drawing; loss of buffered autobatch writes on an ungraceful crash; concurrent calls for the same height (utils.Sessions)
+//verif:bound concurrent calls (VerifH_C03_ConcurrentCallsForOneBlockAreSerialised): four goroutines on one instance - three checks of the same block and one of another block - through the real utils.Sessions; the first sample fetch of the contended block is held open until every other goroutine is blocked or done; one waiting caller may be cancelled; 2x2 square, amount 2; sample coordinates fixed; schedules within 1 deviation from round-robin
+//verif:outside uniform/unpredictable drawing; loss of buffered autobatch writes on an ungraceful crash
 package light
 
 import (
@@ -42,6 +44,11 @@ func verifRandInt(m int) int {
 	// bound: at most verifMaxDraws random numbers per selection (longer runs
 	// of colliding draws are outside the claim)
 	verifDraws++
+	if verifKeyed {
+		// concurrent harness: the coordinates are not its subject - a fixed
+		// sequence that yields distinct cells
+		return []int{0, 0, 1, 1, 0, 1, 1, 0}[(verifDraws-1)%8] % m
+	}
 	nd.Assume(verifDraws <= verifMaxDraws)
 	v := nd.Int("rand")
 	nd.Assume(v >= 0 && v < m)
@@ -66,6 +73,8 @@ var (
 	verifPutFails bool
 	verifPuts     int
 	verifBlobs    []*SamplingResult
+	verifKeyed    bool                       // concurrent harness: one cell per key, no write buffer
+	verifCells    map[string]*SamplingResult // key -> stored result
 )
 
 func verifCopy(r *SamplingResult) *SamplingResult {
@@ -93,7 +102,21 @@ func verifUnmarshal(data []byte, v any) error {
 	return nil
 }
 
+func verifDAHString(d *da.DataAvailabilityHeader) string {
+	if len(d.RowRoots) > 0 && len(d.RowRoots[0]) > 0 && d.RowRoots[0][0] == 1 {
+		return "OTHER"
+	}
+	return "BLOCK"
+}
+
 func verifDsGet(d *autobatch.Datastore, ctx context.Context, k datastore.Key) ([]byte, error) {
+	if verifKeyed {
+		c := verifCells[k.String()]
+		if c == nil {
+			return nil, datastore.ErrNotFound
+		}
+		return verifMarshal(c)
+	}
 	if verifCell == nil {
 		return nil, datastore.ErrNotFound
 	}
@@ -107,6 +130,11 @@ func verifDsPut(d *autobatch.Datastore, ctx context.Context, k datastore.Key, va
 	var r SamplingResult
 	if err := verifUnmarshal(val, &r); err != nil {
 		return err
+	}
+	if verifKeyed {
+		verifCells[k.String()] = &r
+		verifPuts++
+		return nil
 	}
 	verifCell = &r
 	verifDirty, verifBufKey = true, k
@@ -267,4 +295,176 @@ func VerifH_C03_AvailableOnlyAfterAllSamples() {
 		}
 		verifCell, verifDirty = verifDurable, false
 	}
+}
+
+// ---- concurrent calls ------------------------------------------------------------
+
+// verifGatedGetter holds the first fetch for the contended block open until the
+// harness opens the gate, and records overlapping fetches per height.
+type verifGatedGetter struct {
+	verifGetter
+	gate            chan struct{}
+	gated           bool
+	inFlight        map[uint64]int
+	calls           map[uint64]int
+	retried         bool
+	firstGotNothing bool
+}
+
+func (g *verifGatedGetter) GetSamples(ctx context.Context, h *header.ExtendedHeader, idx []shwap.SampleCoords) ([]shwap.Sample, error) {
+	ht := h.Height()
+	g.inFlight[ht]++
+	g.calls[ht]++
+	nd.Assert(g.inFlight[ht] == 1, "checks-of-one-block-never-overlap")
+	if r := verifCells[datastoreKeyForRoot(h.DAH).String()]; r != nil {
+		// a result is persisted: this fetch asks for exactly its pending coordinates
+		nd.Assert(len(idx) == len(r.Remaining), "retry-requests-exactly-the-pending-coordinates")
+		for _, c := range idx {
+			nd.Assert(verifHas(r.Remaining, c), "retry-requests-exactly-the-pending-coordinates")
+		}
+		g.retried = true
+	}
+	if ht == 9 && !g.gated {
+		g.gated = true
+		<-g.gate
+	} else if ht == 9 {
+		nd.Yield() // a fetch takes time: anybody who may run does
+	}
+	var out []shwap.Sample
+	var err error
+	if ht == 9 {
+		g.requested = append(g.requested, append([]shwap.SampleCoords(nil), idx...))
+		// outcomes: nothing at all / everything / only the first coordinate / cancelled with nothing retrieved
+		oc := nd.Choice(4, "outcome")
+		if oc != 0 {
+			out = make([]shwap.Sample, len(idx))
+		}
+		for i := range out {
+			if oc == 1 || (oc == 2 && i == 0) {
+				raw := make([]byte, libshare.ShareSize)
+				copy(raw, libshare.MustNewV0Namespace([]byte("c03")).Bytes())
+				sh, _ := libshare.NewShare(raw)
+				p := nmt.NewInclusionProof(0, 1, nil, true)
+				out[i] = shwap.Sample{Share: sh, Proof: &p, ProofType: rsmt2d.Row}
+				g.returned = append(g.returned, idx[i])
+			}
+		}
+		switch {
+		case oc == 3:
+			err = context.Canceled
+		case oc == 0 || (oc == 2 && len(idx) > 1):
+			err = errors.New("some requests failed")
+		}
+		if g.calls[ht] == 1 {
+			g.firstGotNothing = len(out) == 0
+		}
+	} else {
+		// the other block is simply served
+		out = make([]shwap.Sample, len(idx))
+		for i := range out {
+			raw := make([]byte, libshare.ShareSize)
+			copy(raw, libshare.MustNewV0Namespace([]byte("c03")).Bytes())
+			sh, _ := libshare.NewShare(raw)
+			p := nmt.NewInclusionProof(0, 1, nil, true)
+			out[i] = shwap.Sample{Share: sh, Proof: &p, ProofType: rsmt2d.Row}
+			g.returned = append(g.returned, idx[i])
+		}
+	}
+	g.inFlight[ht]--
+	return out, err
+}
+
+func verifCheckCell(r *SamplingResult, g *verifGetter, need, width int) {
+	nd.Assert(len(r.Available)+len(r.Remaining) == need, "sample-set-keeps-its-size")
+	for i, c := range r.Available {
+		nd.Assert(c.Row >= 0 && c.Row < width && c.Col >= 0 && c.Col < width, "in-square")
+		nd.Assert(verifHas(g.returned, c), "only-retrieved-coordinates-count-as-sampled")
+		for j := 0; j < i; j++ {
+			nd.Assert(r.Available[j] != c, "distinct-coordinates")
+		}
+		nd.Assert(!verifHas(r.Remaining, c), "sampled-and-pending-are-disjoint")
+	}
+}
+
+// Three concurrent checks of one block and a check of another block on the same
+// instance: the checks of one block are serialised (the second one waits,
+// then works on what the first one persisted and asks for exactly its pending
+// coordinates), a check of another block is not held up by them, a waiting
+// caller honours cancellation, nobody hangs, and the persisted result keeps
+// every guarantee of the sequential case.
+//
+//verif:opts nopanic nodeadlock noreplay preempt=1 threads=8 maxwall=600 cover=serialised,second-retried,second-found-it-done,waiter-cancelled,other-block-not-held-up
+func VerifH_C03_ConcurrentCallsForOneBlockAreSerialised() {
+	const width, need = 2, 2
+	mk := func(height int64, tag byte) *header.ExtendedHeader {
+		roots := make([][]byte, width)
+		for i := range roots {
+			roots[i] = make([]byte, 90)
+		}
+		roots[0][0] = tag
+		eh := &header.ExtendedHeader{DAH: &da.DataAvailabilityHeader{RowRoots: roots, ColumnRoots: roots}}
+		eh.RawHeader.Height = height
+		eh.RawHeader.Time = time.Now()
+		return eh
+	}
+	eh, other := mk(9, 0), mk(10, 1)
+	verifKeyed, verifCells, verifBlobs, verifPuts, verifPutFails = true, map[string]*SamplingResult{}, nil, 0, false
+	nd.Assume(samplingResultsPrefix.String() != "")
+	verifDraws, verifMaxDraws = 0, 4*(need+1)
+	g := &verifGatedGetter{gate: make(chan struct{}), inFlight: map[uint64]int{}, calls: map[uint64]int{}}
+	la := verifNewLA(&g.verifGetter, need)
+	la.getter = g
+
+	var errs [4]error
+	var fin [4]bool
+	done := make(chan int, 4)
+	ctx2, cancel2 := context.WithCancel(context.Background())
+	defer cancel2()
+	go func() { errs[0] = la.SharesAvailable(context.Background(), eh); fin[0] = true; done <- 0 }()
+	go func() { errs[1] = la.SharesAvailable(ctx2, eh); fin[1] = true; done <- 1 }()
+	go func() { errs[2] = la.SharesAvailable(context.Background(), other); fin[2] = true; done <- 2 }()
+	go func() { errs[3] = la.SharesAvailable(context.Background(), eh); fin[3] = true; done <- 3 }()
+
+	nd.RunOthers() // one check of block 9 sits in its fetch, the other waits for it
+	nd.Assert(g.gated && g.calls[9] == 1, "second-check-waits-for-the-first")
+	nd.Assert(!fin[0] && !fin[1] && !fin[3], "second-check-waits-for-the-first")
+	nd.Assert(fin[2], "a-check-of-another-block-is-not-held-up")
+	nd.Cover("other-block-not-held-up")
+	cancelled := nd.Choice(2, "cancelWaiter") == 1
+	if cancelled {
+		cancel2()
+		nd.RunOthers()
+	}
+	close(g.gate)
+	<-done
+	<-done
+	<-done
+	<-done
+	nd.Assert(fin[0] && fin[1] && fin[2] && fin[3], "every-call-returns")
+	nd.Cover("serialised")
+
+	key9 := datastoreKeyForRoot(eh.DAH).String()
+	nd.Assert(key9 != datastoreKeyForRoot(other.DAH).String(), "model: distinct blocks have distinct keys")
+	for _, k := range []string{key9, datastoreKeyForRoot(other.DAH).String()} {
+		if r := verifCells[k]; r != nil {
+			verifCheckCell(r, &g.verifGetter, need, width)
+		}
+	}
+	r9 := verifCells[key9]
+	for _, i := range []int{0, 1, 3} {
+		if errs[i] == nil {
+			nd.Assert(r9 != nil && len(r9.Remaining) == 0 && len(r9.Available) == need, "available-only-after-the-whole-sample-set")
+		}
+	}
+	if g.calls[9] >= 2 {
+		// (a first check whose fetch returned nothing at all persists nothing)
+		nd.Assert(g.retried || g.firstGotNothing, "second-check-works-on-the-persisted-result")
+		nd.Cover("second-retried")
+	} else if errs[0] == nil && errs[1] == nil && errs[3] == nil {
+		nd.Cover("second-found-it-done")
+	}
+	if cancelled && (errors.Is(errs[0], context.Canceled) || errors.Is(errs[1], context.Canceled)) {
+		nd.Cover("waiter-cancelled")
+	}
+	verifKeyed = false
 }
